@@ -239,6 +239,15 @@ func runProgram(c *proto.Case, seed uint64) proto.Run {
 	}
 	verifhook.ConfigureYield(seed != 0, seed)
 
+	var outCh, errCh chan []byte
+	if c.Drain {
+		fork.Stdout.Open()
+		fork.Stderr.Open()
+		outCh, errCh = make(chan []byte, 1), make(chan []byte, 1)
+		go func() { b, _ := fork.Stdout.ReadAll(); outCh <- b }()
+		go func() { b, _ := fork.Stderr.ReadAll(); errCh <- b }()
+	}
+
 	exit, err := fork.Execute([]rune(c.Block))
 
 	run.Sig, run.Hits = verifhook.Signature()
@@ -248,8 +257,14 @@ func runProgram(c *proto.Case, seed uint64) proto.Run {
 	if err != nil {
 		run.Err = err.Error()
 	}
-	run.Stdout, _ = fork.Stdout.ReadAll()
-	run.Stderr, _ = fork.Stderr.ReadAll()
+	if c.Drain {
+		fork.Stdout.Close()
+		fork.Stderr.Close()
+		run.Stdout, run.Stderr = <-outCh, <-errCh
+	} else {
+		run.Stdout, _ = fork.Stdout.ReadAll()
+		run.Stderr, _ = fork.Stderr.ReadAll()
+	}
 	run.OutType = fork.Stdout.GetDataType()
 	if run.Stdout == nil {
 		run.Stdout = []byte{}
